@@ -60,6 +60,61 @@ Definition ip_step_verdict (v : value) : option (bool * bool) :=
   | _ => None
   end.
 
+(* a burst: several datagrams sent back to back from one socket, then the sentinel;
+   the replies come back in the order of the requests (one listener goroutine, one
+   receiving socket), so they are matched first to first *)
+Fixpoint burst_of (l : list value) : option (list (list Z * bool)) :=
+  match l with
+  | [] => Some []
+  | VL [VB p; VZ n] :: t =>
+      match burst_of t with Some ps => Some ((p, negb (n =? 0)) :: ps) | None => None end
+  | _ => None
+  end.
+
+Fixpoint burst_agree (sender : Z) (ps : list (list Z * bool)) (reps : list (Z * list Z)) : bool :=
+  match ps with
+  | [] => match reps with [] => true | _ => false end
+  | (p, n) :: ps' =>
+      match ip_decision p (env_from_obs n p [] None) with
+      | Reply _ =>
+          match reps with
+          | r :: reps' => ip_agree sender p n [r] && burst_agree sender ps' reps'
+          | [] => false
+          end
+      | _ => burst_agree sender ps' reps
+      end
+  end.
+
+Fixpoint burst_oracle (sender : Z) (ps : list (list Z * bool)) (reps : list (Z * list Z)) : bool :=
+  match ps with
+  | [] => match reps with [] => true | _ => false end
+  | (p, n) :: ps' =>
+      if wellformed_request p n then
+        match reps with
+        | r :: reps' => C09_ok sender p n [r] && burst_oracle sender ps' reps'
+        | [] => false
+        end
+      else burst_oracle sender ps' reps
+  end.
+
+Definition ip_burst_verdict (v : value) : option (bool * bool) :=
+  match v with
+  | VL [VZ sender; VL ps; VL reps; VB sentinel; VL sreps] =>
+      match burst_of ps, ip_replies_of reps, ip_replies_of sreps with
+      | Some ps, Some reps, Some sreps =>
+          Some (burst_agree sender ps reps && ip_agree sender sentinel false sreps,
+                burst_oracle sender ps reps && C09_ok sender sentinel false sreps)
+      | _, _, _ => None
+      end
+  | _ => None
+  end.
+
+Definition ip_any_step_verdict (v : value) : option (bool * bool) :=
+  match v with
+  | VL [_; VL _; _; _; _] => ip_burst_verdict v
+  | _ => ip_step_verdict v
+  end.
+
 Fixpoint steps_verdict (f : value -> option (bool * bool)) (l : list value) : option (bool * bool) :=
   match l with
   | [] => Some (true, true)
@@ -152,7 +207,7 @@ Definition glue_C09 (k : string) (a o : list value) : option verdict :=
     (* args: the scripted history (symbolic); outs: [crashed [steps as observed]] *)
     match o with
     | [VZ crashed; VL steps] =>
-        match steps_verdict ip_step_verdict steps with
+        match steps_verdict ip_any_step_verdict steps with
         | Some (ag, orc) => Some (relational ((crashed =? 0) && ag) ((crashed =? 0) && orc))
         | None => None
         end
